@@ -30,7 +30,7 @@ from mc.ref import margins as M
 
 ID = "C20"
 LEVEL = "exploration"
-BUDGET = {"quick": 300, "thorough": 900}
+BUDGET = {"quick": 300, "thorough": 3600}
 CHUNK = 8
 RULE = (
     "cases = every pipeline of the documented automaton over the step menu up to the length bound, as parent; each "
